@@ -111,7 +111,12 @@ class TaskContext:
         return ok
 
     def bounded_check(self, name, evaluations, failures, bound, witness=None):
+        """bounded stand-in (never counted as proved).  A failing run-time contract is a concrete counterexample: it is reported as a violation."""
         self.bounded.append({"name": name, "evaluations": evaluations, "failures": failures, "bound": bound, "witness": witness})
+        if failures:
+            self.obligations.append({"name": name + " [bounded stand-in]", "title": name.split("/")[0], "verdict": "sat", "backend": "bounded run-time contract check",
+                                     "time": 0.0, "bounded": True,
+                                     "replay": {"obligation": name, "confirmed": True, "mode": "native execution (bounded stand-in)", "witness": witness}})
 
     def result(self):
         return {"task": self.task_id, "obligations": self.obligations, "problems": self.problems, "bounded": self.bounded,
@@ -189,6 +194,7 @@ def main(argv=None):
 def finish(prop, tier, seed, mod, results, wall, a):
     known = [k for k in _load_known() if k["property"] == prop]
     obs = [o for r in results for o in r["obligations"] if not o.get("canary")]
+    # bounded stand-ins never count as obligations; a FAILING one is kept (it is a concrete counterexample)
     canaries = [o for r in results for o in r["obligations"] if o.get("canary")]
     errors = [e for r in results for e in r["errors"]]
     violations, known_hits, undecided = [], [], []
